@@ -1027,6 +1027,9 @@ func NewEvent(mach *Machine, machApi Api) *Event {
 
 // Mutation returns the Mutation of an Event.
 func (e *Event) Mutation() *Mutation {
+	if e.Machine() == nil {
+		return nil
+	}
 	t := e.Machine().Transition()
 	if t == nil {
 		return nil
@@ -1066,7 +1069,7 @@ func (e *Event) IsValid() bool {
 // Export clones only the essential data of the Event. Useful for tracing vs GC.
 func (e *Event) Export() *Event {
 	id := e.MachineId
-	if e.Machine() == nil {
+	if id == "" && e.Machine() != nil {
 		id = e.Machine().Id()
 	}
 
@@ -1099,11 +1102,13 @@ func (e *Event) SwapArgs(args A) *Event {
 
 func (e *Event) String() string {
 	mach := e.Machine()
-	if mach == nil {
-		return e.Mutation().String()
+	mut := e.Mutation()
+	// no machine or no current transition
+	if mut == nil {
+		return e.Name
 	}
 
-	return e.Mutation().StringFromIndex(mach.StateNames())
+	return mut.StringFromIndex(mach.StateNames())
 }
 
 // ///// ///// /////
